@@ -6,7 +6,8 @@ PROP = dict(
                    "(induction over the reachability relation of an interleaving transition system whose guards are computed from the "
                    "regenerated synchronisation skeleton of App.Close): when Close has returned every closer was invoked exactly once and "
                    "has returned (C14_all_once, C14_never_twice), Close can return (C14_can_return), and from every reachable state "
-                   "closer i can be invoked and finish while all siblings stand still (C14_no_block). The same skeleton without Wait, "
+                   "closer i can be invoked and finish while all siblings stand still (C14_no_block); all n closers can be inside their Close at the "
+                   "same moment (C14_all_inside_together), so closers that wait for each other are all released. The same skeleton without Wait, "
                    "or with Add inside the goroutine, has a schedule that returns with a closer not invoked (counterexample theorems).",
         level_note="Modelled, not verified: sync.WaitGroup (atomic counter, Wait enabled at 0), goroutine creation; the model cannot show "
                    "scheduler starvation, a closer that never returns, or a panic inside a closer goroutine. The tie to the code is the "
@@ -18,7 +19,10 @@ PROP = dict(
              "sleeps 0 ms (half of them) or uniformly 0-30 ms; counters and completion flags are read immediately after App.Close "
              "returns; a third of the cases are `closez <n> <errmask> <zmask> <seed>`: 1-8 of the closers (zmask) are stateless values "
              "of DISTINCT zero-size struct types (all at one address), their calls/returns counted per type in package-level "
-             "counters; the model side runs one pseudo-random schedule of the proven transition system per scenario and samples at the "
+             "counters; every 8th case is `closew <n> <errmask> <fastmask> <seed>`: 17-48 (one in five: 1-16) closers that WAIT FOR EACH "
+             "OTHER - a closer returns only when all n have been entered (closers in fastmask, about a quarter of them in a third of the cases, "
+             "return at once), with a 2 s give-up timer that only fires when the library holds closers back until others have returned "
+             "(oracle close-slow-blocks-others: nobody had to give up); the model side runs one pseudo-random schedule of the proven transition system per scenario and samples at the "
              "step main returns; n = 0 is labelled trivial; distinct = distinct scenario lines",
         trusted_base=COMMON_TB + ["the reading of Facts.closeSkel into guards (Ioc.Conc.closeShape) and the go/ast skeleton extractor "
                                   "(harness/cmd/facts: calls named Add/Done/Wait/Close, go statements, loops, branches)",
